@@ -513,6 +513,15 @@ class Session:
                 o = observe.output_obs(res)
                 # one output per (operation, transaction): compared as a multiset, the order in
                 # which a config lists its operations is not part of the result
+                # ... and a contract's findings are listed function by function in the order the
+                # config lists the functions: entries inside one output are a multiset as well
+                for out_ in o["outs"]:
+                    j_ = json.loads(out_["json"])
+                    if isinstance(j_.get("paths"), list):
+                        j_["paths"] = sorted(j_["paths"], key=lambda x: json.dumps(x, sort_keys=True))
+                    out_["json"] = json.dumps(j_, sort_keys=True)
+                    if isinstance(out_.get("paths"), list):
+                        out_["paths"] = sorted(out_["paths"])
                 o["outs"] = sorted(o["outs"], key=lambda x: x["json"])
                 dets.append([d.NAME, observe.digest(o)])
                 if full:
@@ -674,10 +683,16 @@ class Session:
             self.clean_scratch()
         return ev
 
-    def run(self) -> Dict[str, Any]:
+    def run(self, spec_file: Any) -> Dict[str, Any]:
         os.chdir(self.scratch)
         out = self.real_stdout
-        for i, op in enumerate(self.spec["ops"]):
+        i = -1
+        while True:
+            line = spec_file.readline()  # one operation at a time: see sim.launch.Runner.run
+            if not line:
+                break
+            i += 1
+            op = json.loads(line)
             ev = self.run_op(i, op)
             # one line per event, flushed, so a watchdog kill still tells which operation hung
             out.write(json.dumps(ev) + "\n")
@@ -707,13 +722,13 @@ def preload() -> None:
 
 def run_session(scratch: str) -> None:
     """Executes <scratch>/spec.json, streaming one JSON event per line to <scratch>/out.jsonl."""
-    with open(os.path.join(scratch, "spec.json"), encoding="utf-8") as f:
-        spec = json.loads(f.read())
+    spec_file = open(os.path.join(scratch, "spec.json"), encoding="utf-8")  # pylint: disable=consider-using-with
+    spec = json.loads(spec_file.readline())
     out = open(os.path.join(scratch, "out.jsonl"), "w", encoding="utf-8")  # pylint: disable=consider-using-with
     work = os.path.join(scratch, "w")
     os.mkdir(work)
     try:
-        log = Session(spec, work, out).run()
+        log = Session(spec, work, out).run(spec_file)
     except BaseException as e:  # noqa
         import traceback
 
